@@ -1,5 +1,6 @@
 SPECIFICATION TraceSpec
 CONSTANTS
-  Fix = {"tail", "suffix", "epoch"}
+  Groups = {"g1", "g2"}
+  CleanupById = FALSE
 POSTCONDITION Done
 CHECK_DEADLOCK FALSE
